@@ -25,7 +25,7 @@ type GenConfig struct {
 	Closes          int  // max graceful shutdowns (Commander.Close with requests in flight, then a restart)
 	UniqueIKPct     int  // percentage of requests carrying an idempotency key of their own (never used before)
 	RevertByRef     bool // reverts may designate their target by the reference it was created under
-	RefBurstPct     int  // percentage of rounds that are a burst of creates from @world sharing one reference (no account lock in common)
+	RefBurstPct     int  // percentage of rounds that are a burst of creates from @world with no account lock in common (sharing one reference when there is a reference pool)
 	Cancels         int
 	SmallBatches    bool
 	ExplicitTime    bool
@@ -198,7 +198,7 @@ func GenPlan(t *rapid.T, cfg GenConfig) *Plan {
 			n = rapid.IntRange(1, cfg.MaxPerRound).Draw(t, "perRound")
 		}
 		var template *Op
-		if cfg.RefBurstPct > 0 && len(cfg.RefPool) > 0 && rapid.IntRange(0, 99).Draw(t, "refBurst") < cfg.RefBurstPct {
+		if cfg.RefBurstPct > 0 && rapid.IntRange(0, 99).Draw(t, "refBurst") < cfg.RefBurstPct {
 			// a pure race on one reference: the requests have no account lock in common, so only the
 			// reference reservation and the store lookup order them; some of them are previews
 			ref := ""
@@ -213,7 +213,11 @@ func GenPlan(t *rapid.T, cfg GenConfig) *Plan {
 			if cfg.DryRunPct > 0 {
 				previewAt = rapid.IntRange(0, k).Draw(t, "burstPreviewAt") // k = none
 			}
-			for i := 0; i < k && ref != ""; i++ {
+			if ref == "" {
+				// no reference pool: the burst is just several writes with no lock in common, in flight together
+				k = rapid.IntRange(3, 5).Draw(t, "burstWide")
+			}
+			for i := 0; i < k; i++ {
 				o := add(Op{Kind: OpCreate, Barrier: start, Reference: ref})
 				o.Grants = map[string]string{}
 				o.Script = sendScript(fmt.Sprint(1+i), cfg.Assets[0], "@world", "@"+cfg.Accounts[i%len(cfg.Accounts)])
